@@ -351,3 +351,115 @@ def r9_operator_functor(ctx):
 
 
 RULES += [r9_operator_functor]
+
+
+def r10_sorted_search(ctx):
+    ctx.rule("C19.r10", "environment maps / sets: std::binary_search, lower_bound, upper_bound and equal_range are applied only to a "
+             "range that std::sort has sorted on every path before (the caller's key vector of project() arrives in any order: a "
+             "binary search on it misses keys, which are then forgotten)", floor=2)
+    from ..paths import MustEvents, Unstructured
+    SEARCH = ("binary_search", "lower_bound", "upper_bound", "equal_range")
+    files = ["include/crab/domains/separate_domains.hpp", "include/crab/domains/discrete_domains.hpp", PT]
+    n = 0
+    seen = set()
+    for f in files:
+        if not ctx.db.has_file(f):
+            continue
+        for fn in ctx.db.fns(f):
+            body = fn["body"]
+            calls = [c for c in walk(body) if c.get("k") == "call" and callee(c) and callee(c)["name"] in SEARCH and
+                     (callee(c).get("qn") or "").startswith("std::") and c.get("a")]
+            if not calls:
+                continue
+            key = (fn.get("pk"), fn.get("psig"))
+            if key in seen:
+                continue
+            seen.add(key)
+
+            def container_of(e):
+                for y in walk(e):
+                    if y.get("k") == "call" and callee(y) and callee(y)["name"] in ("begin", "cbegin") and y.get("o") is not None:
+                        o = strip(y["o"])
+                        if isinstance(o, dict) and o.get("k") in ("ref", "mem"):
+                            return o
+                return None
+
+            def gen(x):
+                if x.get("k") == "call" and callee(x) and callee(x)["name"] in ("sort", "stable_sort") and x.get("a"):
+                    o = container_of(x["a"][0])
+                    if o is not None:
+                        return ("sorted:%s" % (o.get("id") or o.get("n")),)
+                return ()
+            try:
+                fl = MustEvents(gen)
+                fl.run(body)
+            except Unstructured:
+                ctx.skipped("C19.r10|%s" % fn["name"], rid="C19.r10")
+                continue
+            for c in calls:
+                n += 1
+                o = container_of(c["a"][0])
+                st = fl.at.get(id(c)) or frozenset()
+                t = ((o or {}).get("TC") or (o or {}).get("T") or "")
+                if o is not None and ("sorted:%s" % (o.get("id") or o.get("n"))) in st:
+                    ctx.ok("%s: %s on a range sorted before" % (fn["name"], callee(c)["name"]), fn, c)
+                elif o is not None and ("std::set" in t or "std::map" in t):
+                    ctx.ok("%s: %s on an ordered container" % (fn["name"], callee(c)["name"]), fn, c)
+                else:
+                    ctx.bad("%s::%s applies std::%s to `%s`, which has not been sorted on every path before: with keys in descending "
+                            "or arbitrary order the search misses keys that are present (separate_domain::project then forgets "
+                            "bindings the caller asked to keep)" % ((fn.get("cpk") or "").split("::")[-1], fn["name"], callee(c)["name"],
+                                                                    src(o)[:30] if o is not None else "?"), fn, c,
+                            sig="search-on-unsorted-range:%s" % fn["name"])
+    if n == 0:
+        ctx.fail("rule C19.r10: no sorted-range search found")
+
+
+RULES += [r10_sorted_search]
+
+
+def r11_flagged_equality(ctx):
+    ctx.rule("C19.r11", "sets with a separate top flag (discrete_domain, set_domain): operator== is evaluated for the four flag "
+             "combinations with equal underlying sets - top is the flag with an EMPTY set, so a disjunct that compares only the sets "
+             "makes top == {} (bottom) true", floor=4)
+    DD = "include/crab/domains/discrete_domains.hpp"
+    fs = [f for f in ctx.db.fns(DD, name="operator==") if len(f.get("params", [])) == 1]
+    if not ctx.need(fs, "operator== in discrete_domains.hpp", "C19.r11"):
+        return
+    seen = set()
+    import itertools
+    for fn in fs:
+        key = fn.get("cpk")
+        if key in seen:
+            continue
+        body = fn["body"]
+        flags = [x for x in walk(body) if x.get("k") == "mem" and x.get("n") == "m_is_top"]
+        if not flags:
+            continue             # no separate flag (e.g. dual_set_domain compares by mutual inclusion)
+        seen.add(key)
+        oid = fn["params"][0]["id"]
+        for mine, theirs in itertools.product((False, True), repeat=2):
+            def val(c, mine=mine, theirs=theirs):
+                if c.get("k") == "mem" and c.get("n") == "m_is_top":
+                    b = deref(c.get("b"))
+                    if b is None or (isinstance(b, dict) and b.get("k") == "this"):
+                        return mine
+                    if isinstance(b, dict) and b.get("k") == "ref" and b.get("id") == oid:
+                        return theirs
+                if c.get("k") == "call" and c.get("op") == "==" and any(y.get("k") == "mem" and y.get("n") == "m_set" for y in walk(c)):
+                    return True          # equal underlying sets (both empty)
+                return None
+            rs = rets(body)
+            res = _eval3(rs[0].get("v"), val) if len(rs) == 1 else None
+            want = (mine == theirs)
+            if res is None:
+                ctx.undecided("%s::operator== cannot be evaluated for flags (%s, %s)" % ((key or "").split("::")[-1], mine, theirs), fn, body)
+            elif res == want:
+                ctx.ok("%s::operator==: flags (%s,%s) with equal sets -> %s" % ((key or "").split("::")[-1], mine, theirs, res), fn, body)
+            else:
+                ctx.bad("%s::operator== answers %s for top flags (%s, %s) and equal underlying sets: top == {} is true although top <= {} "
+                        "is false" % ((key or "").split("::")[-1], res, mine, theirs), fn, body,
+                        sig="flag-ignored-in-equality:%s" % (key or "").split("::")[-1])
+
+
+RULES += [r11_flagged_equality]
